@@ -29,6 +29,9 @@ type C16Op struct {
 	Pos     int           `json:"pos,omitempty"`     // position parameter of the mutation
 	Tmpl    string        `json:"template,omitempty"`
 	Stream  bool          `json:"stream,omitempty"` // decoders / unmarshalers: io.Reader entry point instead of the document one
+	// Plain: marshalers (with Stream) and encoders write to a plain io.Writer (Write only) instead of a
+	// bytes.Buffer: which optional interfaces the destination implements may change from call to call
+	Plain bool `json:"plain,omitempty"`
 }
 
 type C16Case struct {
@@ -74,6 +77,7 @@ func genC16(t *rapid.T, ctx *Ctx) interface{} {
 				op.Val = gen.GenVal(t, o, op.Type, 0)
 			}
 			op.Stream = rapid.Bool().Draw(t, "mstream")
+			op.Plain = rapid.Bool().Draw(t, "mplain")
 		default:
 			if i > 0 && rapid.IntRange(0, 3).Draw(t, "again") == 0 {
 				// the same document once more: identifiers (markers, record types) defined by an earlier
@@ -91,6 +95,7 @@ func genC16(t *rapid.T, ctx *Ctx) interface{} {
 			op.Mut = rapid.SampledFrom(muts).Draw(t, "mut")
 			op.Pos = rapid.IntRange(0, 1000).Draw(t, "pos")
 			op.Stream = rapid.Bool().Draw(t, "stream")
+			op.Plain = rapid.Bool().Draw(t, "plain")
 			op.Tmpl = rapid.SampledFrom(c16Templates).Draw(t, "tmpl")
 		}
 		c.Ops = append(c.Ops, op)
@@ -258,7 +263,11 @@ func (in *c16Instance) apply(op *C16Op, first bool) (res c16Result) {
 		var err error
 		if op.Stream {
 			var b bytes.Buffer
-			err = in.m.Marshal(v, &b)
+			if op.Plain {
+				err = in.m.Marshal(v, plainWriter{&b})
+			} else {
+				err = in.m.Marshal(v, &b)
+			}
 			res.out = b.Bytes()
 		} else {
 			res.out, err = in.m.MarshalToDocument(v)
@@ -297,7 +306,11 @@ func (in *c16Instance) apply(op *C16Op, first bool) (res c16Result) {
 		}
 	case in.e != nil:
 		var b bytes.Buffer
-		in.e.PrepareToEncode(&b)
+		if op.Plain {
+			in.e.PrepareToEncode(plainWriter{&b})
+		} else {
+			in.e.PrepareToEncode(&b)
+		}
 		idx, err := ev.Play(c16Events(op), in.e)
 		res.idx, res.errNil = idx, idx < 0
 		if err != nil {
